@@ -9,7 +9,7 @@ from ..sched import replay_case, run_case, selection_set
 from ..spaces import flag_falsy_variants, kinds_all, kinds_rotating, prog_of, shard_iter, single_selections
 
 ID = "C03"
-BUDGET = {"quick": 100, "thorough": 600}
+BUDGET = {"quick": 240, "thorough": 600}
 MONITORS = [mon_c03]
 
 
